@@ -42,6 +42,7 @@ def OutcomeOk (g : Graph) (s : St) (t : Nat) (reqs : List Nat) : Outcome → Pro
   | .cycle chain => (∃ r, r ∈ reqs ∧ ¬ Acyc g r) ∧ CycleChain g chain
   | .failed x => ∃ r, g[x]? = some r ∧ r.fails = true
   | .badRef x => g[x]? = none
+  | .cancelled => True
 
 def Task.isDone (k : Task) : Prop := ∃ o, k.phase = .done o
 def Task.unstarted (k : Task) : Prop := k.phase = .fresh ∨ k.phase = .lockWait
